@@ -75,6 +75,14 @@ FIXED = [
      "with a scale variation scheme and xif != 1 the QED x QCD operator did not reduce to the QCD one for alpha_em -> 0 (gg entry at N=3.5 off by 5-8%)"),
     ("C13", "as4_ei.roots/b=syn-3real/nonfinite", "roots of the N3LO beta polynomial",
      "as4_evolution_integrals.roots([11/6, 1., 1/6]) and roots([0.3, 20., 7.]) returned NaN (real sqrt / cube root of negative numbers)"),
+    ("C20", "gamma.gamma_qcd_as4/nf^0", "two typos in the four-loop quark mass",
+     "gamma_qcd_as4: 135680 zeta3/28 (literature /27) and +332/243 (literature -332/243): gamma_qcd_as4(0)/256 = 98.10 vs 98.9434 (also gamma.gamma_qcd_as4/nf^3; C18 ker_exact/order=4/caused-by-gamma_qcd_as4)"),
+    ("C18", "msbar_masses.solve/TypeError-array-to-scalar", "MSbar mass solver failed with NumPy",
+     "msbar_masses.compute raised TypeError (float() of a 1-element array handed over by fsolve) for every input needing a solve"),
+    ("C16", "compute_matching_coeffs_up/MSBAR/log/c31", "decoupling logs were built with the pole-mass",
+     "MSBAR c31, c32 of the coupling decoupling (order a_s^3 relative) used the POLE c20, c21: 91.889, 43.444 at nf=4 instead of 68.185, 25.667 (also .../c32)"),
+    ("C15", "couplings_expanded_alphaem_running/non-finite", "expanded couplings with running alpha_em",
+     "couplings_expanded_alphaem_running((1,1), [.35,.0075]/4pi, 3, 3, 4., 2500., False) -> a_em = NaN (beta0 swapped inside the logarithms)"),
     ("C41", "v1-archive/theory/matching_order", "loaded with matching order (0, 0)",
      "v1.update_theory forced matching_order=[0,0] for v0.13 archives of any order"),
 ]
@@ -91,6 +99,18 @@ KNOWN = [
      "A_gq^(3)(N=2) is NaN (spurious 1/(N-2) terms that cancel analytically): A_gq(2+0j, cache, 3, 0.0); acknowledged in tests/.../test_as3.py; not repaired: needs the analytic limit"),
     ("C27", "ad_ut.gamma_ns/mode=10200/order-index=2/cusp-coefficient",
      "time-like NNLO valence anomalous dimension has the wrong overall sign on its non-singlet part (as3.gamma_nsv returns -(gamma_nsm + nf PS2)): large-N slope -A_3 instead of +A_3; not repaired: tests/ekore/anomalous_dimensions/unpolarized/time_like/test_as3.py::test_nsv pins the current values"),
+]
+KNOWN += [
+    ("C15", "expanded_vs_exact/qcd=4/a_s",
+     "couplings.expanded_n3lo feeds normalised b_i = beta_i/beta_0 into a term written for beta_i: the N3LO expanded coupling is wrong at O(a^5) (expanded - exact scales like lambda^4 relative, required lambda^5); reproducer: (expanded_qcd(a0,4,beta0,b,1e-7)-a0)/1e-7 = -0.00234486 vs -a0^2 sum beta_k a0^k = -0.00235208 (nf=4, alpha_s=0.2); not repaired: tests/eko/test_couplings.py::benchmark_expanded_n3lo pins the current value"),
+    ("C18", "msbar_masses.evolve/decoupling-factor-not-squared",
+     "msbar_masses.evolve multiplies m^2 by the linear-mass decoupling factor once instead of its square: evolve(2., M_b, sc, [1,1,1], 1., M_b, nf_ref=4, nf_to=5)/2 = 0.99895 = zeta, required zeta^2 = 0.99790; not repaired: the repair moves tests/eko/test_msbar_masses.py::test_compute_msbar_mass beyond its tolerance"),
+    ("C18", "msbar_masses.compute/fixed-point/crossing=True/ratios=unit",
+     "consequence of the un-squared decoupling factor: m(m) = m violated when a mass reference lies in another patch (order >= 3)"),
+    ("C18", "msbar_masses.evolve/matching-scale-position",
+     "msbar_masses.evolve places the mass matching scales at m^2 k^2 xif2 instead of k m^2 (ratios applied twice): evolve(2., 0.80645, sc, k_c=0.5, 1., 0.80645, nf_ref=3, nf_to=4) = 2.00304, must be 2.0; not repaired together with the previous one"),
+    ("C18", "msbar_masses.compute/fixed-point/crossing=True/ratios=non-unit",
+     "consequence of the misplaced mass matching scales: m(m) = m violated for matching ratios != 1 when a patch is crossed"),
 ]
 
 for _d in ("up", "down"):
